@@ -3,7 +3,7 @@
 From Coq Require Extraction.
 From Coq Require Import ExtrOcamlBasic.
 From RainVerif Require Import Params.
-From RainVerif.model Require Import Bytes Crc Log LogScript Bloom FilterBlock Key Block Table TableSpec Version Lsm LsmSpec DbSpec LockOwner LockPhases Work TableFile Cursor Conc Codec Gc WalModel Recover Proto Faults.
+From RainVerif.model Require Import Bytes Crc Log LogScript Bloom FilterBlock Key Block Table TableSpec Version Lsm LsmSpec DbSpec LockOwner LockPhases Work TableFile Cache Cursor Conc Codec Gc WalModel Recover Proto Faults.
 
 Extraction Language OCaml.
 
@@ -27,4 +27,5 @@ Extraction "../ocaml/model.ml"
   log_read_all_x decode_changes p_step p_run prun_init crash_image batch_last_seq
   f_run f_init f_contents f_reopen
   work_inv_dump
-  read_block_at file_footer footer_encode update_at.
+  read_block_at file_footer footer_encode update_at
+  lru_run lru_new.
